@@ -1,8 +1,457 @@
 (** Lemmas and proofs for C09 (bitstr). *)
-From Coq Require Import ZArith List Bool Lia.
-From Low Require Import Lib.MachInt Lib.Bits Lib.BitSeq Lib.Bytes Lib.Lex Lib.Pack_bw Model.Bitstr Spec.BitstrSpec.
+From Coq Require Import ZArith List Bool Lia PeanoNat.
+From Low Require Import Lib.MachInt Lib.Bits Lib.BitSeq Lib.Bytes Lib.Lex Lib.Pack_bw
+  Lib.PackLemmas_bw Lib.LexLemmas_bw Lib.LexExtra_sig Lib.PadLex_bw9 Model.Bitstr Spec.BitstrSpec.
 Import ListNotations.
 Open Scope Z_scope.
 
 Lemma StrCmpUpto_eq a b : StrCmpUpto a b = CmpUpto a b.
 Proof. reflexivity. Qed.
+
+(** * list plumbing *)
+Lemma zlen_app {A} (a b : list A) : zlen (a ++ b) = zlen a + zlen b.
+Proof. unfold zlen. rewrite app_length. lia. Qed.
+
+Lemma zlen_cons {A} (x : A) l : zlen (x :: l) = 1 + zlen l.
+Proof. unfold zlen. cbn [length]. lia. Qed.
+
+Lemma zlen_nonneg {A} (l : list A) : 0 <= zlen l.
+Proof. unfold zlen. lia. Qed.
+
+(** [s[:n]] of a list that starts with the n elements [a] *)
+Lemma sliceZ_prefix (a r : list Z) n : n = zlen a -> sliceZ (a ++ r) 0 n = Some a.
+Proof.
+  intros ->. unfold sliceZ. pose proof (zlen_nonneg a). pose proof (zlen_nonneg r). rewrite zlen_app.
+  replace ((0 <=? 0) && (0 <=? zlen a) && (zlen a <=? zlen a + zlen r)) with true
+    by (symmetry; rewrite !andb_true_iff, !Z.leb_le; lia).
+  f_equal. cbn [Z.to_nat skipn]. rewrite Z.sub_0_r. unfold zlen. rewrite Nat2Z.id.
+  rewrite firstn_app, Nat.sub_diag, firstn_O, app_nil_r. apply firstn_all.
+Qed.
+
+Lemma nthZ_app_at {A} (a : list A) x r i : i = zlen a -> nthZ (a ++ x :: r) i = Some x.
+Proof.
+  intros ->. unfold zlen. rewrite nthZ_of_nat, nth_error_app2 by lia. now rewrite Nat.sub_diag.
+Qed.
+
+(** * the mask byte *)
+Lemma mask_eq n : high_mask (last_bits n) = 256 - 2 ^ Z.of_nat (padn n).
+Proof.
+  unfold high_mask, last_bits. cbv zeta. rewrite last_bits_padn. do 2 f_equal. lia.
+Qed.
+
+Lemma sub_compare c x y : (c - x ?= c - y) = (y ?= x).
+Proof.
+  destruct (Z.compare_spec y x) as [E|E|E].
+  - subst. apply Z.compare_refl.
+  - apply Z.compare_lt_iff. lia.
+  - apply Z.compare_gt_iff. lia.
+Qed.
+
+(** same number of payload bytes: the mask bytes order like the bit lengths *)
+Lemma mask_compare n1 n2 : (n1 + padn n1 = n2 + padn n2)%nat ->
+  (high_mask (last_bits n1) ?= high_mask (last_bits n2)) = Nat.compare n1 n2.
+Proof.
+  intros H. rewrite !mask_eq, sub_compare, pow2_compare, Nat2Z.inj_compare by lia.
+  destruct (Nat.compare_spec (padn n2) (padn n1)), (Nat.compare_spec n1 n2); try reflexivity; lia.
+Qed.
+
+Lemma zlen_encB b : zlen (encB b) = zlen (pack b) + 1.
+Proof. unfold encB. rewrite zlen_app. reflexivity. Qed.
+
+(** * Len *)
+Lemma Len_encB b : Len (encB b) = Some (zlen b).
+Proof.
+  unfold Len. cbv zeta. rewrite zlen_encB. unfold encB.
+  rewrite nthZ_app_at by lia. f_equal.
+  rewrite mask_eq. pose proof (padn_lt (length b)) as P.
+  rewrite popcount_high_mask by lia.
+  pose proof (pack_length8 b) as L. unfold zlen. lia.
+Qed.
+
+(** * Cmp *)
+Lemma pack_cmp b1 b2 : bytes_cmp (pack b1) (pack b2) = bits_cmp (pad8 b1) (pad8 b2).
+Proof. rewrite bytes_cmp_msb_bits by apply pack_bytes_ok. now rewrite !msb_bits_pack. Qed.
+
+Lemma bytes_cmp_single x y : bytes_cmp [x] [y] = (x ?= y).
+Proof. unfold bytes_cmp. cbn [lex_cmp]. now destruct (x ?= y). Qed.
+
+Lemma pack_cmp_shorter b1 b2 : (length (pack b1) < length (pack b2))%nat ->
+  bytes_cmp (pack b1) (pack b2) = bits_cmp b1 b2.
+Proof.
+  intros H. rewrite pack_cmp. unfold pad8. apply pad_cmp_shorter2.
+  pose proof (pack_length8 b1). pose proof (pack_length8 b2). pose proof (padn_lt (length b2)). lia.
+Qed.
+
+Lemma Cmp_encB b1 b2 : Cmp (encB b1) (encB b2) = Some (cmp_sign (bits_cmp b1 b2)).
+Proof.
+  unfold Cmp. cbv zeta. rewrite !zlen_encB.
+  destruct (Z.eqb_spec (zlen (pack b1) + 1) (zlen (pack b2) + 1)) as [E|E].
+  - f_equal. unfold bytesCompare. f_equal.
+    assert (L : length (pack b1) = length (pack b2)) by (unfold zlen in E; lia).
+    unfold encB, bytes_cmp. rewrite lex_cmp_app_eqlen by exact L. fold bytes_cmp.
+    rewrite bytes_cmp_single, pack_cmp. unfold pad8.
+    pose proof (pack_length8 b1) as L1. pose proof (pack_length8 b2) as L2.
+    rewrite mask_compare by lia. apply pad_cmp_same_total. lia.
+  - unfold encB. rewrite !sliceZ_prefix by lia. f_equal. unfold bytesCompare. f_equal.
+    destruct (Nat.lt_ge_cases (length (pack b1)) (length (pack b2))) as [Hlt|Hge].
+    + now apply pack_cmp_shorter.
+    + rewrite bytes_cmp_antisym, (bits_cmp_antisym b2 b1). f_equal.
+      apply pack_cmp_shorter. unfold zlen in E. lia.
+Qed.
+
+(** * cmpBytes *)
+Lemma cmpBytes_loop_eq a : forall b, (length a <= length b)%nat ->
+  cmpBytes_loop a b = Some (cmp_sign (bytes_cmp a b)).
+Proof.
+  induction a as [|x a IH]; intros [|y b] H; cbn [length] in H; try lia.
+  - reflexivity.
+  - reflexivity.
+  - cbn [cmpBytes_loop]. unfold bytes_cmp. cbn [lex_cmp]. fold bytes_cmp.
+    unfold Z.ltb, Z.gtb. destruct (x ?= y); try reflexivity. apply IH. lia.
+Qed.
+
+(** the manual loop indexes [b] out of range exactly when [b] is a proper prefix of [a] *)
+Lemma cmpBytes_loop_panic a : forall b,
+  cmpBytes_loop a b = None <-> exists r, r <> [] /\ a = b ++ r.
+Proof.
+  induction a as [|x a IH]; intros [|y b]; cbn [cmpBytes_loop].
+  - split; [discriminate|]. intros (r & Hr & E). destruct r; [congruence|discriminate].
+  - split; [discriminate|]. intros (r & Hr & E). discriminate.
+  - split; [|reflexivity]. intros _. exists (x :: a). split; [discriminate|reflexivity].
+  - unfold Z.ltb, Z.gtb. destruct (Z.compare_spec x y) as [E|E|E].
+    + subst. rewrite IH. split; intros (r & Hr & Er); exists r; (split; [exact Hr|]).
+      * cbn [app]. now f_equal.
+      * cbn [app] in Er. now injection Er.
+    + split; [discriminate|]. intros (r & Hr & Er). cbn [app] in Er. injection Er as -> _. lia.
+    + split; [discriminate|]. intros (r & Hr & Er). cbn [app] in Er. injection Er as -> _. lia.
+Qed.
+
+Lemma cmpBytes_long a b : 8 <= zlen a -> cmpBytes a b = Some (cmp_sign (bytes_cmp a b)).
+Proof. intros H. unfold cmpBytes. destruct (Z.ltb_spec (zlen a) 8); [lia|reflexivity]. Qed.
+
+Lemma cmpBytes_short a b : zlen a < 8 -> (length a <= length b)%nat ->
+  cmpBytes a b = Some (cmp_sign (bytes_cmp a b)).
+Proof. intros H L. unfold cmpBytes. destruct (Z.ltb_spec (zlen a) 8); [|lia]. now apply cmpBytes_loop_eq. Qed.
+
+(** both sides of the 8-byte switch, on every call that does not index out of range *)
+Lemma cmpBytes_eq a b : (length a <= length b)%nat \/ 8 <= zlen a ->
+  cmpBytes a b = Some (cmp_sign (bytes_cmp a b)).
+Proof.
+  intros [H|H].
+  - destruct (Z.lt_ge_cases (zlen a) 8); [now apply cmpBytes_short|apply cmpBytes_long; lia].
+  - now apply cmpBytes_long.
+Qed.
+
+Lemma cmpBytes_panic a b : cmpBytes a b = None <-> zlen a < 8 /\ exists r, r <> [] /\ a = b ++ r.
+Proof.
+  unfold cmpBytes. destruct (Z.ltb_spec (zlen a) 8) as [H|H].
+  - rewrite cmpBytes_loop_panic. tauto.
+  - split; [discriminate|]. intros [? _]. lia.
+Qed.
+
+(** * CmpUpto: the two branches on explicit shapes *)
+Lemma nthZ_last2a {A} (p : list A) v m i : i = zlen p -> nthZ (p ++ [v; m]) i = Some v.
+Proof. intros H. now apply nthZ_app_at. Qed.
+
+Lemma nthZ_last2b {A} (p : list A) v m i : i = zlen p + 1 -> nthZ (p ++ [v; m]) i = Some m.
+Proof.
+  intros H. change (p ++ [v; m]) with (p ++ [v] ++ [m]). rewrite app_assoc.
+  apply nthZ_app_at. rewrite zlen_app. exact H.
+Qed.
+
+Lemma CmpUpto_short a p v m : (length a <= length p)%nat ->
+  CmpUpto a (p ++ [v; m]) = Some (cmp_sign (bytes_cmp a (p ++ [v]))).
+Proof.
+  intros H. unfold CmpUpto. cbv zeta.
+  rewrite zlen_app. change (zlen [v; m]) with 2.
+  pose proof (zlen_nonneg p).
+  destruct (Z.eqb_spec (zlen p + 2) 1); [lia|].
+  destruct (Z.ltb_spec (zlen a) (zlen p + 2 - 1)); [|unfold zlen in *; lia].
+  change (p ++ [v; m]) with (p ++ [v] ++ [m]). rewrite app_assoc.
+  rewrite sliceZ_prefix by (rewrite zlen_app; change (zlen [v]) with 1; lia).
+  apply cmpBytes_eq. left. rewrite app_length. cbn [length]. lia.
+Qed.
+
+Lemma CmpUpto_long a1 x a2 p v m : length a1 = length p ->
+  CmpUpto (a1 ++ x :: a2) (p ++ [v; m]) =
+  Some (match bytes_cmp a1 p with Eq => cmp_sign (Z.land x m ?= v) | r => cmp_sign r end).
+Proof.
+  intros H. unfold CmpUpto. cbv zeta.
+  rewrite !zlen_app. change (zlen [v; m]) with 2. rewrite zlen_cons.
+  pose proof (zlen_nonneg p). pose proof (zlen_nonneg a2).
+  assert (zlen a1 = zlen p) by (unfold zlen; lia).
+  destruct (Z.eqb_spec (zlen p + 2) 1); [lia|].
+  destruct (Z.ltb_spec (zlen a1 + (1 + zlen a2)) (zlen p + 2 - 1)); [lia|].
+  rewrite !sliceZ_prefix by lia.
+  rewrite cmpBytes_eq by (left; lia).
+  rewrite nthZ_app_at by lia. rewrite nthZ_last2b by lia. rewrite nthZ_last2a by lia.
+  f_equal. destruct (bytes_cmp a1 p); cbn [cmp_sign Z.eqb negb]; try reflexivity.
+  unfold Z.gtb, Z.ltb. now destruct (Z.land x m ?= v).
+Qed.
+
+(** the last, masked byte of [a] against the last payload byte *)
+Lemma byte_cmp_masked x c : byte_ok x -> (0 < length c <= 8)%nat ->
+  (Z.land x (256 - 2 ^ (8 - Z.of_nat (length c))) ?= val_msb (c ++ repeat false (8 - length c)))
+  = bits_cmp (firstn (length c) (byte_bits x)) c.
+Proof.
+  intros Hx Hc. rewrite land_high_mask by assumption.
+  set (k := length c). set (u := firstn k (byte_bits x)).
+  assert (Lu : length u = k) by (unfold u; rewrite firstn_length, byte_bits_length; lia).
+  rewrite byte_cmp_bits by (apply val_msb8_byte_ok; rewrite app_length, repeat_length; lia).
+  rewrite !byte_bits_val_msb by (rewrite app_length, repeat_length; lia).
+  unfold bits_cmp. rewrite lex_cmp_app_eqlen by lia. rewrite (lex_cmp_refl bool_cmp bool_cmp_refl).
+  now destruct (lex_cmp bool_cmp u c).
+Qed.
+
+Lemma split_at {A} (l : list A) n : (n < length l)%nat ->
+  exists l1 x l2, l = l1 ++ x :: l2 /\ length l1 = n.
+Proof.
+  intros H. destruct (skipn n l) as [|x l2] eqn:E.
+  - apply (f_equal (@length A)) in E. rewrite skipn_length in E. cbn in E. lia.
+  - exists (firstn n l), x, l2. split.
+    + rewrite <- E. symmetry. apply firstn_skipn.
+    + rewrite firstn_length. lia.
+Qed.
+
+Lemma CmpUpto_encB a b : bytes_ok a -> CmpUpto a (encB b) = Some (cmp_sign (bits_cmp (upto a b) b)).
+Proof.
+  intros Ha. destruct (list_eq_dec Bool.bool_dec b []) as [->|Hne]; [reflexivity|].
+  destruct (pack_decomp b Hne) as (p & c & Hp & Hc & Eb & Epack & Epad).
+  unfold encB. rewrite mask_eq, Epad, Epack, <- app_assoc. cbn [app].
+  replace (Z.of_nat (8 - length c)) with (8 - Z.of_nat (length c)) by lia.
+  assert (Hv : byte_ok (val_msb (c ++ repeat false (8 - length c))))
+    by (apply val_msb8_byte_ok; rewrite app_length, repeat_length; lia).
+  unfold upto. subst b. rewrite app_length, msb_bits_length.
+  destruct (le_lt_dec (length a) (length p)) as [Hs|Hl].
+  - rewrite CmpUpto_short by exact Hs. do 2 f_equal.
+    rewrite bytes_cmp_msb_bits; [|exact Ha|apply Forall_app; split; [exact Hp|constructor; [exact Hv|constructor]]].
+    rewrite msb_bits_app. cbn [msb_bits flat_map]. rewrite app_nil_r.
+    rewrite byte_bits_val_msb by (rewrite app_length, repeat_length; lia).
+    rewrite firstn_all2 by (rewrite msb_bits_length; lia).
+    fold (msb_bits p). rewrite app_assoc. unfold bits_cmp. apply lex_cmp_shorter_app.
+    rewrite app_length, !msb_bits_length. lia.
+  - destruct (split_at a (length p) Hl) as (a1 & x & a2 & -> & La1).
+    apply Forall_app in Ha as [Ha1 Ha2]. inversion Ha2 as [|? ? Hx Ha2']; subst.
+    rewrite CmpUpto_long by exact La1. f_equal.
+    rewrite msb_bits_app, msb_bits_cons.
+    rewrite firstn_app, msb_bits_length, La1.
+    rewrite (firstn_all2 (msb_bits a1)) by (rewrite msb_bits_length; lia).
+    replace (8 * length p + length c - 8 * length p)%nat with (length c) by lia.
+    rewrite firstn_app, byte_bits_length.
+    replace (length c - 8)%nat with 0%nat by lia. rewrite firstn_O, app_nil_r.
+    unfold bits_cmp. rewrite lex_cmp_app_eqlen by (rewrite !msb_bits_length; lia). fold bits_cmp.
+    rewrite <- bytes_cmp_msb_bits by assumption.
+    rewrite byte_cmp_masked by assumption.
+    now destruct (bytes_cmp a1 p).
+Qed.
+
+(** * New: index arithmetic *)
+Lemma new_arith f t : 0 <= f <= t -> (f =? t) && (Z.land f 7 =? 0) = false ->
+  let fb := Z.shiftr f 3 in let tb := Z.shiftr (t + 7) 3 in let k := t - 8 * (tb - 1) in
+  fb = f / 8 /\ 0 <= fb < tb /\ 1 <= k <= 8 /\ Z.land (8 - t) 7 = 8 - k /\ 8 * tb < t + 8.
+Proof.
+  intros H Hc. cbv zeta. rewrite !Z.shiftr_div_pow2 by lia. change (2 ^ 3) with 8.
+  change 7 with (Z.ones 3) in *. rewrite !Z.land_ones in * by lia. change (2 ^ 3) with 8 in *.
+  change (Z.ones 3) with 7.
+  assert (Hc' : ~ (f = t /\ f mod 8 = 0)).
+  { intros [E1 E2]. rewrite E2 in Hc. subst. rewrite Z.eqb_refl in Hc. discriminate. }
+  clear Hc. Z.div_mod_to_equations. lia.
+Qed.
+
+Lemma rmask8_eq q : 0 <= q < 8 -> rmask8 q = 256 - 2 ^ q.
+Proof.
+  intros H.
+  assert (T : forallb (fun q => rmask8 q =? 256 - 2 ^ q) (zrange 8) = true) by (vm_compute; reflexivity).
+  apply Z.eqb_eq. apply (forall_zrange _ _ T q H).
+Qed.
+
+(** * New on explicit shapes *)
+Lemma sliceZ_mid (s0 m r : list Z) lo hi : lo = zlen s0 -> hi = lo + zlen m ->
+  sliceZ (s0 ++ m ++ r) lo hi = Some m.
+Proof.
+  intros -> ->. unfold sliceZ. rewrite !zlen_app.
+  pose proof (zlen_nonneg s0). pose proof (zlen_nonneg m). pose proof (zlen_nonneg r).
+  replace ((0 <=? zlen s0) && (zlen s0 <=? zlen s0 + zlen m) && (zlen s0 + zlen m <=? zlen s0 + (zlen m + zlen r)))
+    with true by (symmetry; rewrite !andb_true_iff, !Z.leb_le; lia).
+  f_equal. replace (zlen s0 + zlen m - zlen s0) with (zlen m) by lia. unfold zlen. rewrite !Nat2Z.id.
+  rewrite skipn_app, Nat.sub_diag, skipn_all. cbn [app skipn].
+  rewrite firstn_app, Nat.sub_diag, firstn_O, app_nil_r. apply firstn_all.
+Qed.
+
+Lemma updZ_app_at (a : list Z) y r i z : i = zlen a -> updZ (a ++ y :: r) i z = a ++ z :: r.
+Proof.
+  intros ->. unfold updZ, zlen. rewrite Nat2Z.id.
+  rewrite firstn_app, Nat.sub_diag, firstn_O, app_nil_r, firstn_all.
+  f_equal. f_equal. rewrite skipn_app. rewrite skipn_all2 by lia.
+  replace (length a + 1 - length a)%nat with 1%nat by lia. reflexivity.
+Qed.
+
+Lemma copyZ_fresh (src : list Z) : copyZ (repeat 0 (length src + 1)) src = src ++ [0].
+Proof.
+  unfold copyZ. rewrite repeat_length. replace (Nat.min (length src + 1) (length src)) with (length src) by lia.
+  rewrite firstn_all. f_equal. rewrite repeat_app, skipn_app, repeat_length, Nat.sub_diag.
+  rewrite skipn_all2 by (rewrite repeat_length; lia). reflexivity.
+Qed.
+
+Lemma New_shape s0 mid x s2 f t :
+  Z.shiftr f 3 = zlen s0 -> Z.shiftr (t + 7) 3 = zlen s0 + zlen mid + 1 ->
+  (f =? t) && (Z.land f 7 =? 0) = false ->
+  New (s0 ++ mid ++ x :: s2) f t =
+  Some (mid ++ [Z.land x (rmask8 (Z.land (8 - t) 7)); rmask8 (Z.land (8 - t) 7)]).
+Proof.
+  intros Hf Ht Hc. unfold New. rewrite Hc. cbv zeta. rewrite Hf, Ht.
+  pose proof (zlen_nonneg mid) as Hm.
+  replace (zlen s0 + zlen mid + 1 - zlen s0) with (zlen mid + 1) by lia.
+  destruct (Z.ltb_spec (zlen mid + 1 + 1) 0); [lia|].
+  change (mid ++ x :: s2) with (mid ++ [x] ++ s2). rewrite (app_assoc mid).
+  rewrite (sliceZ_mid s0 (mid ++ [x]) s2) by (rewrite ?zlen_app; change (zlen [x]) with 1; lia).
+  replace (Z.to_nat (zlen mid + 1 + 1)) with (length (mid ++ [x]) + 1)%nat
+    by (rewrite app_length; unfold zlen; cbn [length]; lia).
+  rewrite copyZ_fresh. rewrite <- app_assoc. cbn [app].
+  rewrite nthZ_app_at by lia. rewrite updZ_app_at by lia.
+  rewrite nthZ_last2b by lia.
+  change (mid ++ [Z.land x (rmask8 (Z.land (8 - t) 7)); 0]) with (mid ++ [Z.land x (rmask8 (Z.land (8 - t) 7))] ++ [0]).
+  rewrite app_assoc. rewrite updZ_app_at by (rewrite zlen_app; change (zlen [Z.land x (rmask8 (Z.land (8 - t) 7))]) with 1; lia).
+  now rewrite <- app_assoc.
+Qed.
+
+(** * the bit string of a range, and its encoding, on explicit shapes *)
+Lemma B_shape s0 mid x s2 f t k :
+  f / 8 = zlen s0 -> (0 < k <= 8)%nat -> t = 8 * zlen s0 + 8 * zlen mid + Z.of_nat k ->
+  B (s0 ++ mid ++ x :: s2) f t = msb_bits mid ++ firstn k (byte_bits x).
+Proof.
+  intros Hf Hk ->. unfold B. rewrite Hf.
+  replace (Z.to_nat (8 * zlen s0)) with (8 * length s0)%nat by (unfold zlen; lia).
+  replace (Z.to_nat (8 * zlen s0 + 8 * zlen mid + Z.of_nat k - 8 * zlen s0)) with (8 * length mid + k)%nat
+    by (unfold zlen; lia).
+  rewrite !msb_bits_app, msb_bits_cons.
+  rewrite skipn_app, msb_bits_length, Nat.sub_diag.
+  rewrite skipn_all2 by (rewrite msb_bits_length; lia). cbn [app skipn].
+  rewrite firstn_app, msb_bits_length.
+  rewrite (firstn_all2 (msb_bits mid)) by (rewrite msb_bits_length; lia).
+  f_equal. replace (8 * length mid + k - 8 * length mid)%nat with k by lia.
+  rewrite firstn_app, byte_bits_length. replace (k - 8)%nat with 0%nat by lia.
+  now rewrite firstn_O, app_nil_r.
+Qed.
+
+Lemma padn_add_mult j n : padn (8 * j + n) = padn n.
+Proof.
+  induction j as [|j IH]; [reflexivity|].
+  replace (8 * S j + n)%nat with (8 + (8 * j + n))%nat by lia. now rewrite padn_add8.
+Qed.
+
+Lemma encB_shape mid x k : bytes_ok mid -> byte_ok x -> (0 < k <= 8)%nat ->
+  encB (msb_bits mid ++ firstn k (byte_bits x)) =
+  mid ++ [Z.land x (256 - 2 ^ (8 - Z.of_nat k)); 256 - 2 ^ (8 - Z.of_nat k)].
+Proof.
+  intros Hm Hx Hk.
+  assert (Lk : length (firstn k (byte_bits x)) = k) by (rewrite firstn_length, byte_bits_length; lia).
+  unfold encB. rewrite pack_msb_bits_app by exact Hm.
+  rewrite pack_short by lia. rewrite Lk.
+  rewrite mask_eq, app_length, msb_bits_length, Lk, padn_add_mult, padn_small by lia.
+  rewrite <- land_high_mask by assumption.
+  replace (Z.of_nat (8 - k)) with (8 - Z.of_nat k) by lia.
+  rewrite <- app_assoc. reflexivity.
+Qed.
+
+(** * New = canonical encoding of the bit string of the range *)
+Lemma New_encB s f t : bytes_ok s -> 0 <= f <= t -> t <= 8 * zlen s ->
+  New s f t = Some (encB (B s f t)).
+Proof.
+  intros Hs H Ht.
+  destruct ((f =? t) && (Z.land f 7 =? 0)) eqn:Hc.
+  - unfold New. rewrite Hc. f_equal.
+    apply andb_prop in Hc as [E1 E2]. apply Z.eqb_eq in E1, E2. subst t.
+    change 7 with (Z.ones 3) in E2. rewrite Z.land_ones in E2 by lia. change (2 ^ 3) with 8 in E2.
+    unfold B. replace (f - 8 * (f / 8)) with 0 by (Z.div_mod_to_equations; lia). reflexivity.
+  - destruct (new_arith f t ltac:(lia) Hc) as (Efb & Hfb & Hk & Em & Htb).
+    set (fb := Z.shiftr f 3) in *. set (tb := Z.shiftr (t + 7) 3) in *.
+    set (k := t - 8 * (tb - 1)) in *.
+    assert (Htb' : tb <= zlen s) by lia.
+    (* cut s at fb and at tb - 1 *)
+    set (s0 := firstn (Z.to_nat fb) s). set (rest := skipn (Z.to_nat fb) s).
+    assert (Es : s = s0 ++ rest) by (symmetry; apply firstn_skipn).
+    assert (L0 : zlen s0 = fb) by (unfold s0, zlen in *; rewrite firstn_length; lia).
+    assert (Lr : (Z.to_nat (tb - fb - 1) < length rest)%nat)
+      by (unfold rest; rewrite skipn_length; unfold zlen in *; lia).
+    destruct (split_at rest _ Lr) as (mid & x & s2 & Er & Lmid).
+    assert (Lm : zlen mid = tb - fb - 1) by (unfold zlen; lia).
+    rewrite Es, Er in Hs. apply Forall_app in Hs as [_ Hs]. apply Forall_app in Hs as [Hmid Hs].
+    inversion Hs as [|? ? Hx _]; subst x0 l.
+    rewrite Es, Er.
+    rewrite New_shape by (fold fb tb; lia || exact Hc).
+    fold tb k. rewrite Em. rewrite rmask8_eq by lia.
+    rewrite (B_shape s0 mid x s2 f t (Z.to_nat k)) by lia.
+    rewrite encB_shape by (assumption || lia).
+    replace (Z.of_nat (Z.to_nat k)) with k by lia.
+    replace (8 - (8 - k)) with k by lia. reflexivity.
+Qed.
+
+(** * consequences: Cmp is a total order on canonical encodings *)
+Lemma cmp_sign_inj c d : cmp_sign c = cmp_sign d -> c = d.
+Proof. destruct c, d; cbn; congruence || lia. Qed.
+
+Lemma bits_cmp_lt_trans a b c : bits_cmp a b = Lt -> bits_cmp b c = Lt -> bits_cmp a c = Lt.
+Proof. apply lex_lt_trans; [apply bool_cmp_eq|apply bool_cmp_lt_trans]. Qed.
+
+Lemma bits_cmp_prefix b r : r <> [] -> bits_cmp b (b ++ r) = Lt.
+Proof.
+  intros Hr. unfold bits_cmp. rewrite <- (app_nil_r b) at 1.
+  rewrite lex_cmp_app_same by apply bool_cmp_refl. destruct r; [congruence|reflexivity].
+Qed.
+
+Lemma bits_cmp_first_diff c r1 r2 : bits_cmp (c ++ false :: r1) (c ++ true :: r2) = Lt.
+Proof. unfold bits_cmp. rewrite lex_cmp_app_same by apply bool_cmp_refl. reflexivity. Qed.
+
+Lemma Cmp_zero_iff b1 b2 : Cmp (encB b1) (encB b2) = Some 0 <-> b1 = b2.
+Proof.
+  rewrite Cmp_encB. rewrite <- bits_cmp_eq. split.
+  - intros E. injection E as E. now apply (cmp_sign_inj _ Eq).
+  - now intros ->.
+Qed.
+
+Lemma Cmp_antisym b1 b2 : Cmp (encB b2) (encB b1) = option_map Z.opp (Cmp (encB b1) (encB b2)).
+Proof. rewrite !Cmp_encB. cbn [option_map]. now rewrite bits_cmp_antisym, cmp_sign_opp. Qed.
+
+Lemma Cmp_lt_trans b1 b2 b3 :
+  Cmp (encB b1) (encB b2) = Some (-1) -> Cmp (encB b2) (encB b3) = Some (-1) ->
+  Cmp (encB b1) (encB b3) = Some (-1).
+Proof.
+  rewrite !Cmp_encB. intros E1 E2. injection E1 as E1. injection E2 as E2.
+  apply (cmp_sign_inj _ Lt) in E1, E2. now rewrite (bits_cmp_lt_trans _ _ _ E1 E2).
+Qed.
+
+Lemma Cmp_prefix b r : r <> [] -> Cmp (encB b) (encB (b ++ r)) = Some (-1).
+Proof. intros Hr. now rewrite Cmp_encB, bits_cmp_prefix. Qed.
+
+Lemma Cmp_first_diff c r1 r2 : Cmp (encB (c ++ false :: r1)) (encB (c ++ true :: r2)) = Some (-1).
+Proof. now rewrite Cmp_encB, bits_cmp_first_diff. Qed.
+
+Lemma Cmp_range b1 b2 : exists r, Cmp (encB b1) (encB b2) = Some r /\ (r = -1 \/ r = 0 \/ r = 1).
+Proof. rewrite Cmp_encB. eexists. split; [reflexivity|]. destruct (bits_cmp b1 b2); cbn; auto. Qed.
+
+Lemma encB_inj b1 b2 : encB b1 = encB b2 -> b1 = b2.
+Proof. intros E. apply Cmp_zero_iff. rewrite E. now apply Cmp_zero_iff. Qed.
+
+Lemma CmpUpto_zero_iff a b : bytes_ok a -> CmpUpto a (encB b) = Some 0 <-> upto a b = b.
+Proof.
+  intros Ha. rewrite CmpUpto_encB by exact Ha. rewrite <- bits_cmp_eq. split.
+  - intros E. injection E as E. now apply (cmp_sign_inj _ Eq).
+  - now intros ->.
+Qed.
+
+(** * the compositions the protocol operations run *)
+Lemma Len_New s f t : bytes_ok s -> 0 <= f <= t -> t <= 8 * zlen s ->
+  match New s f t with Some e => Len e | None => None end = Some (spec_Len s f t).
+Proof. intros Hs H Ht. rewrite New_encB by assumption. apply Len_encB. Qed.
+
+Lemma Cmp_New s1 f1 t1 s2 f2 t2 :
+  bytes_ok s1 -> 0 <= f1 <= t1 -> t1 <= 8 * zlen s1 ->
+  bytes_ok s2 -> 0 <= f2 <= t2 -> t2 <= 8 * zlen s2 ->
+  match New s1 f1 t1, New s2 f2 t2 with Some e1, Some e2 => Cmp e1 e2 | _, _ => None end
+  = Some (spec_Cmp s1 f1 t1 s2 f2 t2).
+Proof. intros. rewrite !New_encB by assumption. apply Cmp_encB. Qed.
+
+Lemma CmpUpto_New a s f t : bytes_ok a -> bytes_ok s -> 0 <= f <= t -> t <= 8 * zlen s ->
+  match New s f t with Some e => CmpUpto a e | None => None end = Some (spec_CmpUpto a s f t).
+Proof. intros. rewrite New_encB by assumption. now apply CmpUpto_encB. Qed.
